@@ -177,7 +177,7 @@ func c15NotAfter(c *eng.Ctx) {
 				if !ok {
 					break
 				}
-				if p.Comment != flag {
+				if eng.VarName(p) != flag {
 					continue
 				}
 				n++
